@@ -9,7 +9,7 @@ import warnings
 from typing import Optional
 
 KINDS = {"t": "tag", "r": "soup", "s": "str", "c": "pre"}
-OPS = ["ap", "in", "et", "el", "ib", "ia", "rw", "wr", "uw", "ex", "cl", "de", "sm", "ss"]
+OPS = ["ap", "in", "et", "el", "ib", "ia", "rw", "wr", "uw", "ex", "cl", "de", "sm", "ss", "cd"]
 
 
 class World:
@@ -159,15 +159,25 @@ class World:
                 elif k == "ia":
                     self.objs[f[1]].insert_after(*args(f[2]))
                 elif k == "rw":
-                    self.objs[f[1]].replace_with(*args(f[2]))
+                    # the deprecated spelling reaches the same code (form = function of the op text, so replays repeat it)
+                    form = zlib.crc32(op.encode()) % 4
+                    self.call_forms["rw%d" % min(form, 1)] = self.call_forms.get("rw%d" % min(form, 1), 0) + 1
+                    (self.objs[f[1]].replaceWith if form == 0 else self.objs[f[1]].replace_with)(*args(f[2]))
                 elif k == "wr":
                     self.objs[f[1]].wrap(self.objs[f[2]])
                 elif k == "uw":
-                    self.objs[f[1]].unwrap()
+                    form = zlib.crc32(op.encode()) % 4
+                    o = self.objs[f[1]]
+                    (o.replace_with_children if form == 0 else o.replaceWithChildren if form == 1 else o.unwrap)()
                 elif k == "ex":
                     self.objs[f[1]].extract()
                 elif k == "cl":
                     self.objs[f[1]].clear()
+                elif k == "cd":
+                    o = self.objs[f[1]]
+                    for c in list(o.contents):
+                        self.forget_subtree(c)
+                    o.clear(decompose=True)
                 elif k == "de":
                     o = self.objs[f[1]]
                     pre_dead = o
@@ -506,6 +516,11 @@ class Spec:
         elif k == "cl":
             for e in list(self.kids[f[1]]):
                 self.detach(e)
+        elif k == "cd":
+            for c in list(self.kids[f[1]]):
+                self.detach(c)
+                for e in self.subtree(c):
+                    del self.kids[e], self.parent[e], self.kind[e]
         elif k == "de":
             self.detach(f[1])
             for e in self.subtree(f[1]):
@@ -726,6 +741,10 @@ def gen_op(rng, w: World, stats) -> Optional[str]:
             return f"ex:{rng.choice(pool)[0]}"
         if k == "cl" and tags and rng.random() < 0.5:
             return f"cl:{rng.choice(tags)[0]}"
+        if k == "cd" and tags and rng.random() < 0.35:
+            cand = [(l, o) for l, o in tags if o.contents]
+            if cand:
+                return f"cd:{rng.choice(cand)[0]}"
         if k == "de" and attached and rng.random() < 0.4:
             l, o = rng.choice(attached)
             return f"de:{l}"
